@@ -295,7 +295,10 @@ def readTab (lines : List Line) : Except String FTab :=
       let extraIdx := (List.range hdr.length).filter
         (fun j => !["chromosome", "start", "end"].contains (hdr.getD j ""))
       let names := extraIdx.map (fun j => hdr.getD j "")
-      let extra := extraIdx.map (fun j => typeColumn (column j body))
+      -- gene labels are read as text when the source says so (`converters={"gene": str}`)
+      let extra := extraIdx.map (fun j =>
+        if TAB_GENE_AS_TEXT && hdr.getD j "" == "gene" then strColumn (column j body)
+        else typeColumn (column j body))
       let rows := mkRows cs (ss.map (· + READ_SHIFT_tab)) es extra
       -- every bin needs a log2 value
       let li := names.idxOf "log2"
